@@ -11,7 +11,7 @@ SEEDED = os.environ.get("SEEDED_DIR") or os.path.join(HERE, "seeded")
 
 
 def main():
-    ids = sys.argv[1:] or sorted(d for d in os.listdir(SEEDED) if os.path.exists(os.path.join(SEEDED, d, "patch.diff")))
+    ids = [a for a in sys.argv[1:] if not a.startswith("--")] or sorted(d for d in os.listdir(SEEDED) if os.path.exists(os.path.join(SEEDED, d, "patch.diff")))
     props = ["C%02d" % i for i in range(1, 20)]
     outp = os.path.join(HERE, "seeded", "MATRIX.json")
     matrix = json.load(open(outp)) if os.path.exists(outp) else {}
@@ -25,7 +25,18 @@ def main():
                 print(sid, "patch failed", r.stdout[-300:], r.stderr[-300:], flush=True)
                 continue
         row = {}
-        for p in props:
+        selected = list(props)
+        if sid != "unchanged" and "--full" not in sys.argv:
+            # the four slow checks (C01, C17, C18, C19) only where they are aimed at or related
+            meta = json.load(open(os.path.join(SEEDED, sid, "meta.json")))
+            want = set([meta["property"]] + meta.get("also_run", []))
+            patch = open(os.path.join(SEEDED, sid, "patch.diff")).read()
+            if "src/bin.rs" in patch:
+                want.add("C18")
+            if "py/jsonlogic_rs" in patch or "python_iface" in patch:
+                want.add("C19")
+            selected = [p for p in props if p not in ("C01", "C17", "C18", "C19") or p in want]
+        for p in selected:
             env = dict(os.environ)
             env["JL_REPO"] = work
             t0 = time.time()
